@@ -1,4 +1,232 @@
 import CV.Model.Core.Machine
+import CV.Proofs.InvTimer
+/-
+C09 — Timers never fire early, fire as often as specified, and bound the idle sleep.
+
+Machine-level theorems about the small-step core machine (`CV.Model.Core.Step`), stated over
+`Reach s0 c` (every configuration a driver session can produce from `s0`, CoreReach.lean) or,
+where no invariant is needed, over EVERY configuration `c`.  Proofs: CV/Proofs/InvTimerQ.lean
+(the relation "quiet code" through all arms of `step`) and CV/Proofs/InvTimer.lean.
+
+Vocabulary (all ghost-free: read off the log, the stack and the tables)
+  * `FiredIn c t`   the step `c ↦ step c` logs `.fire te …` where `te` is (after the step) the one
+                    event object `Timer.event` of timer `t`  — "timer t fires";
+  * `IdleIn c d`    the step logs `.idle d`                    — "the loop sleeps d ticks";
+  * `TimerCall c t e` / `FallbackCall c e`   the top frame is the call of a generate_events
+                    handler of timer `t` / of the fallback generator, for the event `e`;
+  * `St.timerDue s t tm`   the guard of `Timer._on_generate_events`: `tm` is record `t`, created,
+                    `tm.expiry ≤ clock`, no unregistration of its component pending;
+  * `ResetIn c t` / `CreateIn c t`   the top frame executes `timer.reset()` / `Timer(…)`;
+  * `TLater c c'`    `c'` is reached from `c` by steps and further external operations
+                    (in between the environment may advance the clock);
+  * `GEBound s e t` "timer t has been seen by generate_events event e": `e.time_left` is armed
+                    (≥ 0) and is 0 or ≤ `expiry t − clock`.
+
+Hypothesis `Init s0 := TimerWF s0`: every `Timer.event` id is an existing event object and
+different timers have different ones; a created timer has `expiry ≤ clock + interval`; every timer's
+component exists.  It holds in particular when no timer has been created yet (`Init.of_fresh`),
+which is how the driver and the harness declare timers.
+
+Dependencies stated, not proved here
+  * that a registered, non-pending timer's handler IS called in every dispatch of generate_events
+    (handler cache C01, dispatch order C02), and that after the detach the old root no longer
+    calls it (C07): with those, `fires_when_due` gives "fires in the first loop iteration at or
+    after its expiry" and `oneshot_once` gives "exactly once";
+  * a one-shot timer that is itself a root cannot unregister (`unregister()` is a no-op for a
+    root) and fires again at every tick: `oneshot_once` says "pending or root", which is all the
+    code guarantees (noted in DESIGN §6 C09; same in the real code).
+-/
 namespace CV.C09
-theorem placeholder : True := trivial
+open CV.Core
+
+/-- the initial-state hypothesis -/
+def Init (s0 : St) : Prop := TimerWF s0
+
+/-- a state in which no timer has been created yet satisfies `Init` -/
+theorem Init.of_fresh {s : St}
+    (h : ∀ (t : Nat) (tm : TimerSt), s.timers[t]? = some tm →
+      tm.created = false ∧ tm.ev = none ∧ tm.comp < s.comps.length) : Init s :=
+  TimerWF.of_fresh h
+
+/-- non-vacuity of `Init`: one component, one declared one-shot timer with interval 3 -/
+example : Init { comps := [dfltComp],
+                 timers := [{ interval := 3, persist := false, tmpl := 0, target := none, comp := 0, parent := 0 }] } := by
+  apply Init.of_fresh
+  intro t tm h
+  match t, h with
+  | 0, h => cases h; exact ⟨rfl, rfl, by decide⟩
+
+/-- a concrete configuration: the loop is about to call the handler (handler 0) of the created,
+    due timer 0 of component 0 for event 0, at clock 5 -/
+def exCfg : Cfg :=
+  { st := { comps := [dfltComp], evs := [{ name := Name.generateEvents }],
+            hs := [{ owner := 0, names := [Name.generateEvents], chan := none, kind := .timer 0 },
+                   { owner := 0, names := [Name.generateEvents], chan := none, prio := -100, kind := .fallbackGE }],
+            timers := [{ interval := 3, persist := true, tmpl := 0, target := none, comp := 0, parent := 0,
+                         expiry := 4, created := true }],
+            clock := 5 },
+    stack := [.invoke 0 0 0, .invoke 0 1 0] }
+
+/-- non-vacuity of `TimerCall`, `St.timerDue`, `FiredIn`: in `exCfg` timer 0 fires -/
+example : TimerCall exCfg 0 0 ∧ FiredIn exCfg 0 :=
+  ⟨⟨0, 0, _, rfl, rfl, rfl⟩, t9_due_fires ⟨0, 0, _, rfl, rfl, rfl⟩ ⟨rfl, rfl, by decide, rfl⟩⟩
+
+/-- non-vacuity of `FallbackCall`, `IdleIn`, `GEBound`, `TLater`: two steps later the fallback
+    generator … does not sleep here (the firing set `time_left` to 0); with an armed event it does -/
+example : FallbackCall (step exCfg) 0 ∧ TLater exCfg (step exCfg) := ⟨⟨0, 1, _, rfl, rfl, rfl⟩, .step .refl⟩
+
+def exIdle : Cfg :=
+  { exCfg with st := { exCfg.st with evs := [{ name := Name.generateEvents, timeLeft := 2 }] },
+               stack := [.invoke 0 1 0] }
+
+example : FallbackCall exIdle 0 ∧ IdleIn exIdle 2 :=
+  ⟨⟨0, 1, _, rfl, rfl, rfl⟩, ⟨[.idle 2, .hinv 0 6 0], rfl, by simp⟩⟩
+
+/-- non-vacuity of `ResetIn` / `CreateIn` -/
+example : ResetIn (startDo exCfg.st 0 (.timerReset 0)) 0 := ⟨_, _, _, rfl, rfl⟩
+example : CreateIn { st := { timers := [{ interval := 3, persist := false, tmpl := 0, target := none, comp := 0, parent := 0 }] },
+                     stack := [.timerNew 0] } 0 := ⟨_, _, rfl, rfl, rfl, rfl⟩
+
+/-! ### 1. the clock -/
+
+/-- The clock never decreases: not in a machine step, not in an environment change. -/
+theorem clock_monotone (c : Cfg) (d : Nat) (tape : List Entry) :
+    c.st.clock ≤ (step c).st.clock ∧ c.st.clock ≤ (envChange c.st d tape).clock :=
+  ⟨(t9_step_W c).clock, by show c.st.clock ≤ c.st.clock + (d : Int); omega⟩
+
+/-- … hence along every run. -/
+theorem clock_monotone_run {c c' : Cfg} (h : TLater c c') : c.st.clock ≤ c'.st.clock := h.clock
+
+/-- A step moves the clock only as a loop tick (`tick()` firing generate_events: + 1) or as an
+    idle wait of the fallback generator (+ the logged duration = `time_left` of its event). -/
+theorem clock_moves_only (c : Cfg) (h : (step c).st.clock ≠ c.st.clock) :
+    (∃ x k, c.stack = .tickGen x :: k ∧ c.exn = none ∧ (step c).st.clock = c.st.clock + 1)
+    ∨ (∃ e, FallbackCall c e ∧ IdleIn c (c.st.ev e).timeLeft ∧
+         (step c).st.clock = c.st.clock + (c.st.ev e).timeLeft) :=
+  t9_clock_moves h
+
+/-! ### 2. never early -/
+
+/-- A step that fires timer `t`'s event is a call of `t`'s generate_events handler in a state where
+    `t` is created, `clock ≥ expiry`, and no unregistration of its component is pending. -/
+theorem never_early {s0 : St} (h0 : Init s0) {c : Cfg} (hr : Reach s0 c) {t : Nat} (hf : FiredIn c t) :
+    ∃ e tm, TimerCall c t e ∧ c.st.timers[t]? = some tm ∧ tm.created = true ∧
+      tm.expiry ≤ c.st.clock ∧ (c.st.comp tm.comp).pending = false := by
+  obtain ⟨e, tm, _, hc, hd, _⟩ := t9_fired_guard (TimerWF.reach h0 c hr) hf
+  exact ⟨e, tm, hc, hd.1, hd.2.1, hd.2.2.1, hd.2.2.2⟩
+
+/-- `expiry` is only ever written as `k + interval` for a clock reading `k` of the writing step
+    (`Timer(…)`, `reset()`, re-arming of a persistent timer); the interval never changes; a created
+    timer stays created.  (Environment changes do not touch timers: `envChange` only writes `clock`
+    and `tape`.) -/
+theorem expiry_is_set_plus_interval (c : Cfg) (t : Nat) (tm : TimerSt) (h : c.st.timers[t]? = some tm) :
+    ∃ tm', (step c).st.timers[t]? = some tm' ∧ tm'.interval = tm.interval ∧ tm'.persist = tm.persist ∧
+      tm'.comp = tm.comp ∧ (tm.created = true → tm'.created = true) ∧
+      ((tm'.expiry = tm.expiry ∧ tm'.created = tm.created) ∨
+       (tm'.created = true ∧ ∃ k, c.st.clock ≤ k ∧ k ≤ (step c).st.clock ∧ tm'.expiry = k + tm.interval)) := by
+  obtain ⟨tm', g, ev⟩ := (t9_step_W c).timers t tm h
+  exact ⟨tm', g, ev.interval, ev.persist, ev.comp, ev.created, ev.arm⟩
+
+/-- A timer whose `expiry` is at least `k0 + interval` (with `k0` not in the future) does not fire
+    before the clock reads `k0 + interval`, whatever happens in between. -/
+theorem no_firing_before_expiry {s0 : St} (h0 : Init s0) {c c' : Cfg} (hr : Reach s0 c) {t : Nat} {tm : TimerSt}
+    {k0 : Int} (ht : c.st.timers[t]? = some tm) (hk : k0 ≤ c.st.clock) (he : k0 + tm.interval ≤ tm.expiry)
+    (hl : TLater c c') (hf : FiredIn c' t) : k0 + tm.interval ≤ c'.st.clock :=
+  t9_spacing h0 hr ht hk he hl hf
+
+/-- After `Timer(interval, …)` at clock `k` the first firing is at clock ≥ `k + interval`. -/
+theorem created_then_interval {s0 : St} (h0 : Init s0) {c c' : Cfg} (hr : Reach s0 c) {t : Nat} {tm : TimerSt}
+    (hc : CreateIn c t) (ht : c.st.timers[t]? = some tm) (hl : TLater (step c) c') (hf : FiredIn c' t) :
+    c.st.clock + tm.interval ≤ c'.st.clock := by
+  obtain ⟨tm0, g0, g1, hclk⟩ := t9_create_step hc
+  rw [ht] at g0; cases g0
+  have h := t9_spacing h0 (Reach.step hr) (k0 := c.st.clock) g1 (by rw [hclk]; exact Int.le_refl _) (Int.le_refl _) hl hf
+  exact h
+
+/-- Consecutive firings of a persistent timer are at least one interval apart (and so are any two
+    firings: `c'` is any later firing). -/
+theorem persistent_spacing {s0 : St} (h0 : Init s0) {c c' : Cfg} (hr : Reach s0 c) {t : Nat} {tm : TimerSt}
+    (hf : FiredIn c t) (ht : c.st.timers[t]? = some tm) (hp : tm.persist = true)
+    (hl : TLater (step c) c') (hf' : FiredIn c' t) : c.st.clock + tm.interval ≤ c'.st.clock := by
+  obtain ⟨e, tm0, x, _, hd, hfire⟩ := t9_fired_guard (TimerWF.reach h0 c hr) hf
+  have : tm0 = tm := by have := hd.1; rw [ht] at this; cases this; rfl
+  subst this
+  have hself := hfire.self
+  rw [if_pos hp] at hself
+  have hclk : (step c).st.clock = c.st.clock := hfire.clock
+  have h := t9_spacing h0 (Reach.step hr) (k0 := c.st.clock) hself (by rw [hclk]; exact Int.le_refl _) (Int.le_refl _) hl hf'
+  exact h
+
+/-- `reset()` restarts the countdown: after a reset at clock `k` no firing before `k + interval`. -/
+theorem reset_restarts {s0 : St} (h0 : Init s0) {c c' : Cfg} (hr : Reach s0 c) {t : Nat} {tm : TimerSt}
+    (hre : ResetIn c t) (ht : c.st.timers[t]? = some tm) (hcr : tm.created = true)
+    (hl : TLater (step c) c') (hf : FiredIn c' t) : c.st.clock + tm.interval ≤ c'.st.clock := by
+  obtain ⟨g1, hclk⟩ := t9_reset_step hre ht hcr
+  have h := t9_spacing h0 (Reach.step hr) (k0 := c.st.clock) g1 (by rw [hclk]; exact Int.le_refl _) (Int.le_refl _) hl hf
+  exact h
+
+/-! ### 3. one-shot -/
+
+/-- When a one-shot timer fires, `unregister()` has been called on its component by the end of the
+    same step: the component has an unregistration pending, or is a (detached) root.  While the
+    unregistration is pending the timer does not fire (`never_early`: `pending = false` at every
+    firing).  Exactly-once then needs: a detached timer is not called by the old root (C07/C01). -/
+theorem oneshot_once {s0 : St} (h0 : Init s0) {c : Cfg} (hr : Reach s0 c) {t : Nat} {tm : TimerSt}
+    (hf : FiredIn c t) (ht : c.st.timers[t]? = some tm) (hp : tm.persist = false) :
+    (c.st.comp tm.comp).pending = false ∧
+    (((step c).st.comp tm.comp).pending = true ∨ ((step c).st.comp tm.comp).parent = tm.comp) := by
+  have wf := TimerWF.reach h0 c hr
+  obtain ⟨e, tm0, x, _, hd, hfire⟩ := t9_fired_guard wf hf
+  have : tm0 = tm := by have := hd.1; rw [ht] at this; cases this; rfl
+  subst this
+  exact ⟨hd.2.2.2, hfire.unreg (wf.compIn t tm0 ht) hp⟩
+
+/-! ### 4. the idle wait -/
+
+/-- An idle wait is logged only by the fallback generator; its duration is the `time_left` of the
+    generate_events event being dispatched, it is positive, and the clock advances by exactly it. -/
+theorem idle_is_time_left (c : Cfg) (d : Int) (hi : IdleIn c d) :
+    ∃ e, FallbackCall c e ∧ d = (c.st.ev e).timeLeft ∧ 0 < d ∧ (step c).st.clock = c.st.clock + d :=
+  t9_idle_guard hi
+
+/-- `reduce_time_left` only lowers: once `time_left` of an event is armed (≥ 0) it stays armed and
+    never grows, in every step. -/
+theorem time_left_only_lowers (c : Cfg) (e : Nat) (h : 0 ≤ (c.st.ev e).timeLeft) :
+    0 ≤ ((step c).st.ev e).timeLeft ∧ ((step c).st.ev e).timeLeft ≤ (c.st.ev e).timeLeft :=
+  (t9_step_W c).tl e h
+
+/-- The handler of a created timer arms `time_left`: afterwards it is 0 (fired) or at most
+    `expiry − clock` — unless it returned early because the unregistration is pending. -/
+theorem timer_arms_bound (c : Cfg) (t e : Nat) (tm : TimerSt) (hc : TimerCall c t e)
+    (ht : c.st.timers[t]? = some tm) (hcr : tm.created = true) (he : e < c.st.evs.length)
+    (hp : tm.expiry ≤ c.st.clock → (c.st.comp tm.comp).pending = false) : GEBound (step c).st e t := by
+  obtain ⟨r, h, k, hs, hx, hk⟩ := hc
+  have heq : (step c).st = (c.st.logE (c.t9hinv h e)).timerTick t e := by
+    rw [step_cons c _ k hs hx]; exact Cfg.t9_invoke_timer c k r h e t hk
+  rw [heq]
+  exact timerTick_bound (s := c.st.logE (c.t9hinv h e)) ht hcr he hp
+
+/-- The idle loop never sleeps past the expiry of a pending-free timer whose handler ran for the
+    same generate_events event: if timer `t`'s handler was called for `e` at `c0`, the clock has not
+    moved since (`clock_moves_only`: it moves only by loop ticks, which start a NEW event, and by
+    idle waits) and the fallback generator now sleeps `d` ticks for `e`, then after the sleep the
+    clock is still ≤ `t`'s expiry — even if `t` was reset in between. -/
+theorem idle_bound {s0 : St} (h0 : Init s0) {c0 c : Cfg} (hr : Reach s0 c0) {t e : Nat} {tm : TimerSt} {d : Int}
+    (hc : TimerCall c0 t e) (ht : c0.st.timers[t]? = some tm) (hcr : tm.created = true)
+    (he : e < c0.st.evs.length) (hp : tm.expiry ≤ c0.st.clock → (c0.st.comp tm.comp).pending = false)
+    (hl : TLater (step c0) c) (hclk : c.st.clock = (step c0).st.clock)
+    (hfb : FallbackCall c e) (hi : IdleIn c d) :
+    ∃ tm', c.st.timers[t]? = some tm' ∧ (step c).st.clock ≤ tm'.expiry := by
+  have hb := timer_arms_bound c0 t e tm hc ht hcr he hp
+  have hb' := GEBound.tlater h0 (Reach.step hr) hb hl hclk
+  exact t9_idle_bound_step hi hfb hb'
+
+/-! ### 5. fires when due -/
+
+/-- A call of timer `t`'s handler while `t` is created, due and not pending fires its event. -/
+theorem fires_when_due (c : Cfg) (t e : Nat) (tm : TimerSt) (hc : TimerCall c t e)
+    (ht : c.st.timers[t]? = some tm) (hcr : tm.created = true) (hdue : tm.expiry ≤ c.st.clock)
+    (hp : (c.st.comp tm.comp).pending = false) : FiredIn c t :=
+  t9_due_fires hc ⟨ht, hcr, hdue, hp⟩
+
 end CV.C09
